@@ -874,6 +874,8 @@ func aliasClass(addr *Expr) string {
 	switch addr.Op {
 	case "fa":
 		return "F:" + addr.Aux + "." + addr.S
+	case "bea":
+		return "E:*uint8"
 	case "ia":
 		if addr.Typ != nil {
 			return "E:" + types.TypeString(addr.Typ, nil)
@@ -1009,11 +1011,24 @@ func mayAlias(s *State, a, b *Expr) bool {
 	if ra != nil && rb != nil && ra.Key != rb.Key && (s.fresh[ra.Key] || s.fresh[rb.Key]) {
 		return false
 	}
-	if a.Op == "ia" && b.Op == "ia" && a.Args[0].Key == b.Args[0].Key {
-		ca, oka := a.Args[1].IsConst()
-		cb, okb := b.Args[1].IsConst()
-		if oka && okb && ca != cb {
-			return false
+	// byte ranges within the same root: [off, off+width)
+	span := func(e *Expr) (root string, lo, hi int64, ok bool) {
+		switch e.Op {
+		case "ia":
+			c, isC := e.Args[1].IsConst()
+			return e.Args[0].Key, c, c + 1, isC
+		case "bea":
+			c, isC := e.Args[1].IsConst()
+			w := map[string]int64{"be16": 2, "be32": 4, "be64": 8}[e.S]
+			return e.Args[0].Key, c, c + w, isC
+		}
+		return "", 0, 0, false
+	}
+	if ra, la, ha, oka := span(a); oka {
+		if rb, lb, hb, okb := span(b); okb && ra == rb {
+			if ha <= lb || hb <= la {
+				return false
+			}
 		}
 	}
 	if a.Op == "fa" && b.Op == "fa" && a.Args[0].Key == b.Args[0].Key {
